@@ -105,6 +105,34 @@ CHECKS.update({
          "repr/str/nstr/to_str of values within a few ulps of n-digit decimals and of midpoints between them, long mantissas, huge exponents, all formatting options.",
          TRACE_NOTE, "DESIGN.md §4 C08"),
 })
+OBL_TECH = "TLC trace validation of exact rational proof obligations (spec/Oblig.tla: expression trees over the logged inputs/outputs, evaluated on limb rationals)"
+OBL_NOTE = ("Trusted: TLC evaluator, ZLimb (refinement-checked), the recorder. Obligations are emitted by the harness from the property's defining formula; "
+            "closed forms named in the check's docstring are evaluated by the spec. Seeded sampling.")
+CHECKS.update({
+ "C22": (EX, OBL_TECH + "; Oblig!HypTerm / Oblig!Ortho as oracles; cross-precision consistency",
+         "Terminating hypergeometric series and orthogonal polynomials of integer degree at rational data are compared with exact rational values computed by TLC; "
+         "non-terminating cases are judged relationally (values at p and 2p+30 approximate one real number).",
+         OBL_NOTE + " The relational part cannot see an error common to both precisions.", "DESIGN.md §4 C22"),
+ "C25": (EX, "TLC trace validation against the integer sequences defined by recurrence in spec/Oblig.tla (ExactOrUlp / integer equality)",
+         "factorial, fac2, binomial, rf, ff, fib, bernoulli, eulernum, stirling1/2, bell, bernpoly, cyclotomic, primepi, isprime, list_primes, bernfrac and exact=True variants "
+         "against exact values computed by TLC from the defining recurrences.",
+         OBL_NOTE + " Bernoulli/Euler via the Seidel-Entringer-Arnold triangle; isprime judged up to 4000 by trial division in the spec.", "DESIGN.md §4 C25"),
+ "C26": (EX, OBL_TECH + "; Oblig!PolyInt closed forms; relations between outputs",
+         "Integrals of polynomials / powers with rational data (1-2 dimensions, three methods, split points) against exact values; reversal, splitting and method-agreement relations.",
+         OBL_NOTE + " Exponential/trigonometric/infinite-interval integrands need the series oracle.", "DESIGN.md §4 C26"),
+ "C27": (EX, OBL_TECH + "; exact finite sums/products evaluated term by term by TLC",
+         "Finite nsum/nprod of rational functions, infinite series/products/limits with rational closed forms through every nsum method, multidimensional finite nsum.",
+         OBL_NOTE + " Limits involving pi/log/e need the series oracle.", "DESIGN.md §4 C27"),
+ "C28": (EX, OBL_TECH + "; Oblig!PolyDer; Pade order conditions on the returned coefficients",
+         "diff/diffs/taylor/partial derivatives of polynomials, difference, differint of monomials, and pade order conditions, all exact.",
+         OBL_NOTE + " Order-n numerical derivatives are granted 4n extra bits.", "DESIGN.md §4 C28"),
+ "C30": (EX, OBL_TECH + " with untrusted exact-inverse certificates verified by the spec",
+         "lu_solve/qr_solve/inverse/det against exact rational results scaled by cond(A) from a certificate that TLC verifies (A*Ainv = I exactly); LU/QR/Cholesky identities and structure; elementwise matrix operations.",
+         OBL_NOTE, "DESIGN.md §4 C30"),
+ "C31": (EX, OBL_TECH + " (residual identities on returned entries; exact Gauss-Legendre moments)",
+         "eigsy/eighe/eig/svd/schur/hessenberg residuals, orthonormality, realness and ordering; Gauss-Legendre rules integrate monomials to degree 2n-1.",
+         OBL_NOTE + " Tolerance ||A||*2^(10-p)*n^2.", "DESIGN.md §4 C31"),
+})
 
 ALL = ["C%02d" % i for i in range(1, 44)]
 NOT_APPLICABLE = {
